@@ -147,6 +147,24 @@ func c19Infer(c *Ctx, t string, wellFormed bool) {
 		return
 	}
 	if !wellFormed {
+		// whatever a malformed string was accepted as: the created column must not panic when it is asked to decode two
+		// rows (a size, precision or definition taken from the string must have been validated, not trusted)
+		if col != nil && col.Data != nil {
+			var derr error
+			if p, msg := safely(func() {
+				rd := proto.NewReader(bytes.NewReader(make([]byte, 512)))
+				if sd, ok := col.Data.(proto.StateDecoder); ok {
+					derr = sd.DecodeState(rd)
+				}
+				if derr == nil {
+					derr = col.Data.DecodeColumn(rd, 2)
+				}
+			}); p {
+				R.Violate(Violation{Kind: "oracle", Key: "infer-decode-panic", What: fmt.Sprintf("the column inferred from %q panicked on decode: %s", trunc(t, 120), msg), Case: cs})
+			}
+			_ = derr
+			R.Count("infer:malformed-accepted-decoded")
+		}
 		return
 	}
 	// reported type of the created column (what Results.Auto() binds) must not conflict with the request
@@ -340,7 +358,8 @@ func runC19(c *Ctx) {
 	// separators without operands, stray brackets, over-long numbers), plain and under each wrapper
 	hostile := []string{"", "'", "''", ", '", "' '", "'a", "a'", "'a''", "\\", "\\'", "'\\'", ",", ",,", " ", "  ", "3,", "3,'", "3, '", "3,''", "3, ''", "3 ,'UTC", ",'UTC'",
 		"(", ")", "((", "))", ")(", "=", "'='", "'a'=", "=1", "'a'='b'", "'a'=1,", ",'a'=1", "'a'=1,,'b'=2", "-", "+", "-0", "+3", "0x3", "3.0", "3e0", " 3", "3 ",
-		"99999999999999999999999999999", "-99999999999999999999999999999", "\x00", "\xff", "String,", ",String", "String,,String"}
+		"99999999999999999999999999999", "-99999999999999999999999999999", "18446744073709551615", "18446744073709551616", "9223372036854775808", "9223372036854775807",
+		"4294967296", "4294967295", "2147483648", "16777216", "1073741825", "\x00", "\xff", "String,", ",String", "String,,String"}
 	for _, base := range []string{"DateTime", "DateTime64", "Decimal", "Decimal32", "Decimal64", "Decimal128", "Decimal256", "Enum8", "Enum16", "FixedString", "Array", "Nullable", "LowCardinality", "Map", "Tuple", "Interval", "IntervalSecond"} {
 		for _, hp := range hostile {
 			t := base + "(" + hp + ")"
